@@ -111,5 +111,5 @@ class SymmetricLinearOperator(Function):
 
                 T[i, j] = self.L * gi * xj - gi * gj - self.mu * self.L * xi * xj + self.mu * xi * gj
 
-        psd_matrix = PSDMatrix(matrix_of_expressions=T)
+        psd_matrix = PSDMatrix(matrix_of_expressions=(T + T.T) / 2)
         self.list_of_class_psd.append(psd_matrix)
